@@ -42,6 +42,23 @@ def gen(ctx):
         for start in (p, [-x for x in p]):
             for dts in (("int8", "int8"), ("int64", "int32"), ("int16", "int8")):
                 yield dict(kind="hop", P=[p], init=list(start), T=N // 4, seed=rng.randrange(10 ** 6), pdtype=dts[0], sdtype=dts[1])
+    # a weighted input of exactly 0 (the rule answers +1 there), reached late in the window: the contributions of the first
+    # cells add up to -k and the last k cells contribute +1 each; wide nets (more cells than any summation block)
+    for N in ([67, 131] if ctx.tier == "quick" else [65, 67, 69, 129, 131, 257]):
+        for k in (1, 2, 3, 4):
+            seed = rng.randrange(10 ** 6)
+            order = fake_perm(seed, 0, list(range(N)))
+            c0, r = order[0], N // 2
+            window = [(c0 - r + j) % N for j in range(r)] + [(c0 + j + 1) % N for j in range(r)]       # the order _rule sums in
+            head = [1] * ((N - 1 - k - k) // 2) + [-1] * ((N - 1 - k + k) // 2)
+            rng.shuffle(head)
+            contrib = head + [1] * k
+            pat = [rng.choice([-1, 1]) for _ in range(N)]
+            init = [0] * N
+            for cell, v in zip(window, contrib):
+                init[cell] = v * pat[c0] * pat[cell]
+            init[c0] = -1
+            yield dict(kind="hop", P=[pat], init=init, T=2, seed=seed, pdtype="int64", sdtype=rng.choice(["int32", "int64"]))
     for _ in range(ctx.n(100, 1000)):
         N = rng.choice([1, 2, 3, 4, 5, 8, 9])
         c = dict(kind="train", P=[[rng.choice([-1, 1]) for _ in range(N)] for _ in range(rng.randint(1, 5))])
